@@ -13,7 +13,7 @@
 //     d / n  A = empty      v<x>  A = x (assignment)      c<x>  A = fresh object constructed from x     k a b s f
 //   eit (utl::either<int,long>)  eitt (utl::either<Tr,long>)
 //     d   A = fresh default     l<x> A = (left)x     q<x> A = (right)x     k a b s f
-// Result: "A <contents> B <contents> | std A <contents> B <contents> | heap a=<allocs> f=<frees> bad=<n> [obj ...]"
+// Result: "A <contents> B <contents> | std A <contents> B <contents> | heap a=<allocs> f=<frees> bad=<n> [obj ctor= dtor= asg= asgraw= live= baddestroy=]"
 // the std part is the same history on std::vector / bounded std::vector / std::optional / std::variant in this process.
 #include <cstdlib>
 #include <cstring>
@@ -94,17 +94,36 @@ static std::string run_seq(const Case& c, size_t limit) {
     return out;
 }
 
-// counting non-trivial element type: detects assignment to / destruction of an object that was never constructed
+// counting non-trivial element type.  Every construction / assignment / destruction of a payload object is counted;
+// an assignment whose target was never constructed (or already destroyed) is counted as "asgraw", a destructor call on
+// such storage as "baddestroy".  Whether storage holds a constructed object is read off a magic word, so the containers
+// under test live in buffers that are filled with 0xAB before every construction ("dirty storage": what a reused heap
+// block or stack slot looks like) — the counts are then a deterministic function of the history.
 struct Tr {
-    static long live, bad_assign, bad_destroy;
+    static long ctor, dtor, asg, asgraw, baddestroy;
     static const int MAGIC = 0x5eed1234;
     int v = 0; int magic = MAGIC;
-    Tr() { live++; } Tr(int x) : v(x) { live++; } Tr(const Tr& o) : v(o.v) { live++; }
-    Tr& operator=(const Tr& o) { if (magic != MAGIC) bad_assign++; v = o.v; return *this; }
-    ~Tr() { if (magic != MAGIC) bad_destroy++; else live--; magic = 0; }
+    Tr() { ctor++; } Tr(int x) : v(x) { ctor++; } Tr(const Tr& o) : v(o.v) { ctor++; }
+    Tr& operator=(const Tr& o) { asg++; if (magic != MAGIC) asgraw++; v = o.v; return *this; }
+    ~Tr() { if (magic != MAGIC) baddestroy++; else dtor++; magic = 0; }
+    static void reset() { ctor = dtor = asg = asgraw = baddestroy = 0; }
 };
-long Tr::live = 0, Tr::bad_assign = 0, Tr::bad_destroy = 0;
+long Tr::ctor = 0, Tr::dtor = 0, Tr::asg = 0, Tr::asgraw = 0, Tr::baddestroy = 0;
 static int val_of(int x) { return x; } static int val_of(long x) { return (int)x; } static int val_of(const Tr& t) { return t.v; }
+
+// an object of type V living in dirty storage
+template <typename V> struct Dirty {
+    alignas(V) unsigned char buf[sizeof(V)]; V* p = nullptr;
+    template <typename... A> void make(const A&... a) {
+        destroy();
+        volatile unsigned char* q = buf; for (size_t i = 0; i < sizeof(V); i++) q[i] = 0xAB;   // not elidable (lifetime-dse)
+        asm volatile("" : : "r"(buf) : "memory");
+        p = new (buf) V(a...);
+    }
+    void destroy() { if (p) { p->~V(); p = nullptr; } }
+    V& operator*() { return *p; }
+    ~Dirty() { destroy(); }
+};
 
 template <typename T> static std::string show_opt(const utl::maybe<T>& m) { return m.has_value() ? "some " + std::to_string(val_of(*m)) : "none"; }
 template <typename T> static std::string show_opt(const std::optional<T>& m) { return m.has_value() ? "some " + std::to_string(val_of(*m)) : "none"; }
@@ -114,20 +133,21 @@ static std::string run_maybe(const Case& c) {
     using V = utl::maybe<T>; using S = std::optional<int>;
     std::string out;
     {
-        std::unique_ptr<V> A(new V()), B(new V()); std::unique_ptr<S> SA(new S()), SB(new S());
+        Dirty<V> SA_, SB_; Dirty<V>* A = &SA_; Dirty<V>* B = &SB_; A->make(); B->make();
+        std::unique_ptr<S> SA(new S()), SB(new S());
         for (auto& a : c.args) {
             const std::string& t = a.raw; char o = t[0];
-            if (o == 'd') { A.reset(new V()); SA.reset(new S()); }
-            else if (o == 'n') { *A = utl::nothing; *SA = std::nullopt; }
-            else if (o == 'v') { *A = T(num(t, 1)); *SA = num(t, 1); }
-            else if (o == 'c') { A.reset(new V(T(num(t, 1)))); SA.reset(new S(num(t, 1))); }
-            else if (o == 'k') { B.reset(new V(*A)); SB.reset(new S(*SA)); }
-            else if (o == 'a') { *B = *A; *SB = *SA; }
-            else if (o == 'b') { *A = *B; *SA = *SB; }
-            else if (o == 's') { V& r = *A; *A = r; }
+            if (o == 'd') { A->make(); SA.reset(new S()); }
+            else if (o == 'n') { **A = utl::nothing; *SA = std::nullopt; }
+            else if (o == 'v') { **A = T(num(t, 1)); *SA = num(t, 1); }
+            else if (o == 'c') { A->make(T(num(t, 1))); SA.reset(new S(num(t, 1))); }
+            else if (o == 'k') { const V& src = **A; B->make(src); SB.reset(new S(*SA)); }     // copy-CONSTRUCTION into dirty storage
+            else if (o == 'a') { **B = **A; *SB = *SA; }
+            else if (o == 'b') { **A = **B; *SA = *SB; }
+            else if (o == 's') { V& r = **A; **A = r; }
             else if (o == 'f') { std::swap(A, B); std::swap(SA, SB); }
         }
-        out = "A " + show_opt(*A) + " B " + show_opt(*B) + " | std A " + show_opt(*SA) + " B " + show_opt(*SB);
+        out = "A " + show_opt(**A) + " B " + show_opt(**B) + " | std A " + show_opt(*SA) + " B " + show_opt(*SB);
     }
     return out;
 }
@@ -146,25 +166,26 @@ static std::string run_either(const Case& c) {
     using V = utl::either<T, long>; using S = std::variant<int, long>;
     std::string out;
     {
-        std::unique_ptr<V> A(new V()), B(new V()); std::unique_ptr<S> SA(new S()), SB(new S());
+        Dirty<V> SA_, SB_; Dirty<V>* A = &SA_; Dirty<V>* B = &SB_; A->make(); B->make();
+        std::unique_ptr<S> SA(new S()), SB(new S());
         for (auto& a : c.args) {
             const std::string& t = a.raw; char o = t[0];
-            if (o == 'd') { A.reset(new V()); SA.reset(new S()); }
-            else if (o == 'l') { *A = T(num(t, 1)); *SA = (int)num(t, 1); }
-            else if (o == 'q') { *A = (long)num(t, 1); *SA = (long)num(t, 1); }
-            else if (o == 'k') { B.reset(new V(*A)); SB.reset(new S(*SA)); }
-            else if (o == 'a') { *B = *A; *SB = *SA; }
-            else if (o == 'b') { *A = *B; *SA = *SB; }
-            else if (o == 's') { V& r = *A; *A = r; }
+            if (o == 'd') { A->make(); SA.reset(new S()); }
+            else if (o == 'l') { **A = T(num(t, 1)); *SA = (int)num(t, 1); }
+            else if (o == 'q') { **A = (long)num(t, 1); *SA = (long)num(t, 1); }
+            else if (o == 'k') { const V& src = **A; B->make(src); SB.reset(new S(*SA)); }     // copy-CONSTRUCTION into dirty storage
+            else if (o == 'a') { **B = **A; *SB = *SA; }
+            else if (o == 'b') { **A = **B; *SA = *SB; }
+            else if (o == 's') { V& r = **A; **A = r; }
             else if (o == 'f') { std::swap(A, B); std::swap(SA, SB); }
         }
-        out = "A " + show_var(*A) + " B " + show_var(*B) + " | std A " + show_var(*SA) + " B " + show_var(*SB);
+        out = "A " + show_var(**A) + " B " + show_var(**B) + " | std A " + show_var(*SA) + " B " + show_var(*SB);
     }
     return out;
 }
 
 static std::string handle(const Case& c) {
-    g_allocs = g_frees = g_bad = 0; Tr::live = Tr::bad_assign = Tr::bad_destroy = 0;
+    g_allocs = g_frees = g_bad = 0; Tr::reset();
     std::string r; bool obj = false;
     if (c.op == "vec") r = run_seq<utl::vector<int>, std::vector<int>, true>(c, 1u << 30);
     else if (c.op == "svec") r = run_seq<utl::static_vector<int, CAP>, bounded, true>(c, CAP);
@@ -178,7 +199,8 @@ static std::string handle(const Case& c) {
     else return "unsupported";
     // every object of the history has been destroyed here
     r += " | heap a=" + std::to_string(g_allocs) + " f=" + std::to_string(g_frees) + " bad=" + std::to_string(g_bad);
-    if (obj) r += " obj live=" + std::to_string(Tr::live) + " badassign=" + std::to_string(Tr::bad_assign) + " baddestroy=" + std::to_string(Tr::bad_destroy);
+    if (obj) r += " obj ctor=" + std::to_string(Tr::ctor) + " dtor=" + std::to_string(Tr::dtor) + " asg=" + std::to_string(Tr::asg) +
+                  " asgraw=" + std::to_string(Tr::asgraw) + " live=" + std::to_string(Tr::ctor - Tr::dtor) + " baddestroy=" + std::to_string(Tr::baddestroy);
     return r;
 }
 
